@@ -23,6 +23,7 @@ ENC = {
     "mdcrd": ["mdtraj.formats.mdcrd.MDCRDTrajectoryFile.read", "mdtraj.formats.mdcrd.MDCRDTrajectoryFile.read_as_traj", "mdtraj.formats.mdcrd.load_mdcrd"],
     "xyz": ["mdtraj.formats.xyzfile.XYZTrajectoryFile.read", "mdtraj.formats.xyzfile.XYZTrajectoryFile.read_as_traj", "mdtraj.formats.xyzfile.load_xyz"],
     "lammpstrj": ["mdtraj.formats.lammpstrj.LAMMPSTrajectoryFile.read", "mdtraj.formats.lammpstrj.LAMMPSTrajectoryFile.read_as_traj", "mdtraj.formats.lammpstrj.load_lammpstrj"],
+    "gro": ["mdtraj.formats.gro.GroTrajectoryFile.read", "mdtraj.formats.gro.GroTrajectoryFile.read_as_traj", "mdtraj.formats.gro.load_gro"],
     "arc": ["mdtraj.formats.arc.ArcTrajectoryFile.read", "mdtraj.formats.arc.ArcTrajectoryFile.read_as_traj", "mdtraj.formats.arc.load_arc"],
 }
 
@@ -54,6 +55,19 @@ def obligations():
         o.append(Obl(f"C02.{fmt}.load_frame", "xh", "harness.c02", f"{fmt}_load_frame", e, "total<=5, every frame, every non-empty atom subset",
                      "load_<fmt>(frame=i, atom_indices=) is frame i restricted to the atoms", 150,
                      quick_pre="total <= 3", timeout_thorough=1200))
+    e = ENC["gro"]
+    o += [
+        Obl("C02.gro.read_stride_step", "xh", "harness.c02", "gro_read_stride_step", e[:1], "total<=6, 0<=pos<=total, n<=4, stride<=4",
+            "read(n, stride) returns the next n strided frames and what is read afterwards is exactly the rest of the strided sequence (the class keeps no frame counter: the cursor is observed through the next read)", 150,
+            quick_pre="total <= 4 and n <= 3 and stride <= 3", timeout_thorough=1200),
+        Obl("C02.gro.read_all_stride", "xh", "harness.c02", "gro_read_all_stride", e[:1], "total<=6, stride<=4", "read(stride=s) == ids[pos::s]", 120, quick_pre="total <= 5 and stride <= 3", timeout_thorough=600),
+        Obl("C02.gro.load_stride_atoms", "xh", "harness.c02", "gro_load_stride", e, "total<=6, stride<=4, every non-empty atom subset", "load_gro(stride=, atom_indices=) == full[::stride] restricted to the atoms (coordinates, time, topology)", 150,
+            quick_pre="total <= 3 and stride <= 2", timeout_thorough=1800),
+        Obl("C02.gro.iterload", "xh", "harness.c02", "gro_iterload", e[:2] + ["mdtraj.core.trajectory.iterload"], "total<=5, chunk<=6, stride<=3, skip=0 (skip>0 is refused: no seek)",
+            "chunks concatenate to full[::stride]; all but the last have exactly `chunk` frames; time and cell follow", 200, quick_pre="total <= 4 and chunk <= 3 and stride <= 2", timeout_thorough=2400),
+        Obl("C02.gro.iterload_atoms", "xh", "harness.c02", "gro_iterload_atoms", e[:2] + ["mdtraj.core.trajectory.iterload"], "total<=3, chunk<=3, stride<=2, every non-empty atom subset", "chunks carry exactly the requested atoms", 150,
+            quick_pre="total <= 2 and chunk <= 2 and not b2", timeout_thorough=2400),
+    ]
     o += [
         Obl("C02.iterload.chunk0", "xh", "harness.c02", "iterload_chunk0", ["mdtraj.core.trajectory.iterload"], "total<=6, stride<=3, every skip, every atom subset of 3 or none",
             "iterload(chunk=0) yields full[skip::stride] with the requested atoms (md.load stubbed by its contract)", 120, quick_pre="total <= 4"),
